@@ -166,13 +166,15 @@ def close(a, b):
     return abs(float(a) - b) <= 1e-5 * max(1.0, abs(b))
 
 
-def shard(cname, dt, delayk, mode, tol_k, ob_kind, B, T):
+def shard(cname, dt, delayk, mode, tol_k, ob_kind, B, T, via="ctor"):
+    """via: how the synapse got its configuration - constructor, or constructed with another maximum delay / step time and then
+    assigned ``delay`` / ``dt`` through the public setters before the run (every delayed history must follow)"""
     tally = Tally()
     delay = delayk * dt
     tol = tol_k * dt
     cur_ob = {"cfg": 7.0, "none": None, "zero": 0.0}[ob_kind]
     spk_ob = {"cfg": True, "none": None, "zero": False}[ob_kind]
-    cfg = {"class": cname, "dt": dt, "delay": delay, "interp_mode": mode, "tol": tol, "overbound": ob_kind, "B": B}
+    cfg = {"class": cname, "dt": dt, "delay": delay, "interp_mode": mode, "tol": tol, "overbound": ob_kind, "B": B, "configured_via": via}
     grid = selector_grid(dt, delay, tol)
     elems = list(itertools.product((False, True), repeat=2))
 
@@ -181,9 +183,18 @@ def shard(cname, dt, delayk, mode, tol_k, ob_kind, B, T):
         syns = []
         for ip in (False, True):
             try:
-                syns.append(build(cname, dt, delay, mode, tol, cur_ob, spk_ob, B, ip))
+                if via == "ctor":
+                    syns.append(build(cname, dt, delay, mode, tol, cur_ob, spk_ob, B, ip))
+                elif via == "delay-setter":
+                    sy = build(cname, dt, dt if delay != dt else 2 * dt, mode, tol, cur_ob, spk_ob, B, ip)
+                    sy.delay = delay
+                    syns.append(sy)
+                else:
+                    sy = build(cname, 2 * dt, delay, mode, tol, cur_ob, spk_ob, B, ip)
+                    sy.dt = dt
+                    syns.append(sy)
             except Exception as ex:
-                tally.violation(f"exception:construct:{cname}:{type(ex).__name__}", {**cfg, "history": hist}, repr(ex))
+                tally.violation(f"exception:construct:{cname}:{via}:{type(ex).__name__}", {**cfg, "history": hist}, repr(ex))
                 return False
         ref = RefHist(cname, dt)
         outs = [None, None]
@@ -299,6 +310,9 @@ def run(rep):
                                 if quick and B == 2 and (ob == "zero" or mode == "nearest"):
                                     continue
                                 jobs.append((shard, (cname, dt, delayk, mode, tol_k, ob, B, T)))
+                                if B == 1 and ob == "cfg" and tol_k == 0.0 and mode == "previous" and delayk in (1.0, 2.5):
+                                    jobs.append((shard, (cname, dt, delayk, mode, tol_k, ob, B, T, "delay-setter")))
+                                    jobs.append((shard, (cname, dt, delayk, mode, tol_k, ob, B, T, "dt-setter")))
     tally = run_shards(jobs, seed=rep.seed)
     rep.tally.merge(tally)
     c = tally.counts
